@@ -704,6 +704,13 @@ pub fn differential_variants(tcp: bool, steps: &[Step]) -> Vec<(String, bool, St
             inter.push((o, p));
         }
         out.push(("interleaved with an unrelated agent".to_string(), inter == reference, first_diff(&reference, &inter)));
+        // under a tracing subscriber (the ambient dispatcher of the thread): arguments of the
+        // library's log statements are only evaluated then, and formatting runs its Debug impls
+        for (name, level) in [("TRACE", tracing::Level::TRACE), ("DEBUG", tracing::Level::DEBUG)] {
+            let d = sink_dispatch(level);
+            let logged = tracing::dispatcher::with_default(&d, || observe(tcp, &steps, base));
+            out.push((format!("replayed under a {name} tracing subscriber"), logged == reference, first_diff(&reference, &logged)));
+        }
         // time bases around the real clock: "now" and an hour ago (an ambient clock read used as a
         // fallback or clamp shows here, BASE being 100 000 s in the future)
         let wall = std::time::Instant::now();
@@ -738,11 +745,21 @@ pub fn differential_variants(tcp: bool, steps: &[Step]) -> Vec<(String, bool, St
     out
 }
 
+pub fn sink_dispatch(level: tracing::Level) -> tracing::Dispatch {
+    use std::sync::OnceLock;
+    static T: OnceLock<tracing::Dispatch> = OnceLock::new();
+    static D: OnceLock<tracing::Dispatch> = OnceLock::new();
+    let cell = if level == tracing::Level::TRACE { &T } else { &D };
+    cell.get_or_init(|| tracing::Dispatch::new(tracing_subscriber::fmt().with_max_level(level).with_writer(std::io::sink).finish())).clone()
+}
+
 fn clause_of(name: &str) -> String {
     if name.starts_with("time base shifted") {
         "time-shift".to_string()
     } else if name.starts_with("time base at the wall clock") {
         "wall-clock-base".to_string()
+    } else if name.contains("tracing subscriber") {
+        "tracing-subscriber".to_string()
     } else {
         name.replace(' ', "-")
     }
